@@ -299,6 +299,15 @@ func runC16(c *core.Ctx) {
 		key, _ := rm.NewSigKey(st, r)
 		k, sh := gen.KACOf(r, st, []int{0, 4}[(i/2)%2])
 		copy(k.Block[384-32:], key.Pub)
+		if i%16 == 9 {
+			// signing keys that are valid points in a NON-canonical encoding (y >= 2^255-19) or of
+			// small order: reachable only by parsing, never by key generation
+			alt := [][]byte{bytes.Repeat([]byte{0xff}, 32), append(bytes.Repeat([]byte{0xff}, 31), 0x7f), append([]byte{0xf0}, append(bytes.Repeat([]byte{0xff}, 30), 0x7f)...),
+				append([]byte{0xee}, append(bytes.Repeat([]byte{0xff}, 30), 0x7f)...), append([]byte{1}, make([]byte, 31)...), make([]byte, 32), append([]byte{0xec}, append(bytes.Repeat([]byte{0xff}, 30), 0x7f)...)}
+			key = &rm.SigKey{Type: st, Pub: alt[(i/16)%len(alt)]}
+			copy(k.Block[384-32:], key.Pub)
+			sh["signing_key"] = "extreme encoding"
+		}
 		enc := k.Encode()
 		dest, _, err := destination.ReadDestination(enc)
 		if err != nil {
@@ -308,6 +317,16 @@ func runC16(c *core.Ctx) {
 		c.Nontrivial([]byte("blind"), enc)
 		secret := r.Bytes(32 + r.Pick(33))
 		day := time.Date(2000+r.Pick(60), time.Month(1+r.Pick(12)), 1+r.Pick(28), 0, 0, 0, 0, time.UTC)
+		switch i % 8 {
+		case 3: // any day of the proleptic calendar the time package represents, not only this century
+			day = time.Date(1+r.Pick(9000), time.Month(1+r.Pick(12)), 1+r.Pick(28), 0, 0, 0, 0, time.UTC)
+		case 5: // around the Unix epoch and before it (integer division of negative seconds rounds the other way)
+			day = time.Date(1969, 12, 31, 0, 0, 0, 0, time.UTC).AddDate(0, 0, -r.Pick(3)+r.Pick(3))
+			if r.Chance(1, 2) {
+				day = time.Date(1900+r.Pick(70), time.Month(1+r.Pick(12)), 1+r.Pick(28), 0, 0, 0, 0, time.UTC)
+			}
+		}
+		sh["year"] = day.Year()
 		sh["sig"] = st
 		instants := []time.Time{day, day.Add(12 * time.Hour), day.Add(24*time.Hour - time.Second), day.Add(24*time.Hour - time.Nanosecond)}
 		var first []byte
@@ -417,6 +436,8 @@ func runC16(c *core.Ctx) {
 		}
 		// the result is a function of the secret's CONTENT: the caller refills the same buffer with
 		// another secret and blinds again for the same day (and the same destination) right away
+		// (the call with the old content comes immediately before, nothing in between)
+		encrypted_leaseset.CreateBlindedDestination(dest, secret, day.Add(2*time.Hour))
 		copy(secret, r.Bytes(len(secret)))
 		if bd2, err := encrypted_leaseset.CreateBlindedDestination(dest, secret, day.Add(3*time.Hour)); err == nil {
 			b2, _ := bd2.Bytes()
